@@ -47,6 +47,14 @@ func (f *gofile) use(p int) string {
 		return "wire"
 	}
 	path := f.r.S.pkgPath(p)
+	if f.pkg == 0 {
+		for _, dp := range f.r.S.DotImports {
+			if dp == p {
+				f.imports[path] = "."
+				return ""
+			}
+		}
+	}
 	alias := f.r.S.ImportAlias[p]
 	f.imports[path] = alias
 	if alias != "" {
@@ -56,6 +64,14 @@ func (f *gofile) use(p int) string {
 }
 
 func (f *gofile) p(format string, a ...interface{}) { fmt.Fprintf(&f.body, format, a...) }
+
+// q returns the qualifier prefix ("pkg." or "" for dot-imported packages).
+func (f *gofile) q(p int) string {
+	if n := f.use(p); n != "" {
+		return n + "."
+	}
+	return ""
+}
 
 func (f *gofile) ty(t *Type) string { return GoType(f.r.S, t, f.pkg, f.use) }
 
@@ -281,7 +297,7 @@ func (f *gofile) itemExpr(i int) string {
 		if it.Pkg == f.pkg {
 			return it.Name
 		}
-		return f.use(it.Pkg) + "." + it.Name
+		return f.q(it.Pkg) + it.Name
 	case "struct":
 		if it.Legacy {
 			if it.LegacyPtr {
@@ -339,7 +355,7 @@ func (f *gofile) refExpr(r Ref) string {
 		if s.Pkg == f.pkg {
 			return s.Name
 		}
-		return f.use(s.Pkg) + "." + s.Name
+		return f.q(s.Pkg) + s.Name
 	default:
 		return f.use(pkgWire) + ".NewSet(" + f.refList(r.Inline) + ")"
 	}
@@ -724,7 +740,7 @@ func (r *Renderer) renderDriver(home map[int]int) string {
 	for _, ii := range sortedIntKeys(home) {
 		ref := fmt.Sprintf("ZzRefV%d", ii)
 		if home[ii] != 0 {
-			ref = f.use(home[ii]) + "." + ref
+			ref = f.q(home[ii]) + ref
 		}
 		f.p("\t%s.Ref(%q, %s)\n", tr, ItemID(ii), ref)
 	}
